@@ -550,8 +550,12 @@ impl<'a, T: Transport> Transferrer<'a, T> {
                         Ok(Some(result))
                     }
                 } else {
-                    tracing::warn!("Symlink has no target: {}", source.path.display());
-                    Ok(None)
+                    // The scanner could not read the link: nothing can be created for
+                    // it, which must not pass for a successful transfer
+                    Err(SyncError::Io(std::io::Error::other(format!(
+                        "Symlink target could not be read: {}",
+                        source.path.display()
+                    ))))
                 }
             }
             SymlinkMode::Preserve => {
@@ -567,8 +571,12 @@ impl<'a, T: Transport> Transferrer<'a, T> {
 
                     Ok(None)
                 } else {
-                    tracing::warn!("Symlink has no target: {}", source.path.display());
-                    Ok(None)
+                    // The scanner could not read the link: nothing can be created for
+                    // it, which must not pass for a successful transfer
+                    Err(SyncError::Io(std::io::Error::other(format!(
+                        "Symlink target could not be read: {}",
+                        source.path.display()
+                    ))))
                 }
             }
         }
